@@ -102,8 +102,8 @@ def _parse_sympy_expr(expression):
     local_dict = {name: sympy.Symbol(name) for name in re.findall(r"[^\W\d]\w*", expression)}
     try:
         parsed = sympy.parsing.sympy_parser.parse_expr(expression, local_dict=local_dict)
-    except (TypeError, AttributeError, SyntaxError, sympy.SympifyError) as error:
-        # Bitwise operators and other things that are not arithmetic
+    except (TypeError, AttributeError, SyntaxError, ArithmeticError, sympy.SympifyError) as error:
+        # Bitwise operators, 1 % 0 and other things that are not arithmetic
         raise ValueError(f"Cannot interpret {expression} as arithmetic") from error
 
     if not isinstance(parsed, sympy.Expr):
@@ -349,7 +349,7 @@ def simplify_math_iterators(source: str) -> str:
                 continue
             try:
                 replacement = _sum_range(arg)
-            except (NotImplementedError, ValueError):
+            except (NotImplementedError, ValueError, ArithmeticError):
                 continue
             yield node, replacement
 
@@ -368,7 +368,7 @@ def simplify_math_iterators(source: str) -> str:
                 continue
             try:
                 replacement = _sum_constants(arg.elts)
-            except ValueError:
+            except (ValueError, ArithmeticError):
                 continue
             yield node, replacement
 
@@ -382,7 +382,7 @@ def simplify_math_iterators(source: str) -> str:
                 continue
             try:
                 replacement = _integrate_over(arg.elt, arg.generators)
-            except (NotImplementedError, ValueError):
+            except (NotImplementedError, ValueError, ArithmeticError):
                 continue
             yield node, replacement
 
